@@ -295,6 +295,8 @@ type lifeRun struct {
 	phase   string
 	timeout time.Duration
 	nkinds  int
+
+	wasInfeasible bool
 }
 
 var thePKI *pki
@@ -481,7 +483,14 @@ func (lr *lifeRun) waitCall() (returned bool, ok bool) {
 	return done, ok
 }
 
+// lifeInfeasible counts the scripts of this process that could not be replayed (a dead driver shows as: all of them)
+var lifeInfeasible, lifeRun_ int
+
 func (lr *lifeRun) infeasible(step string) {
+	if !lr.wasInfeasible {
+		lr.wasInfeasible = true
+		lifeInfeasible++
+	}
 	lr.rec.Emit(Ev{"ev": "infeasible", "step": step})
 }
 
@@ -756,6 +765,13 @@ func cmdLife(args []string) {
 			hmu.Lock()
 			current = nil
 			hmu.Unlock()
+			lifeRun_++
+			if lifeRun_ >= 25 && lifeInfeasible == lifeRun_ {
+				// not one script could be replayed: the driver is dead on this tree (the check reports that as inconclusive);
+				// going on would only wait out thousands of watchdogs
+				fmt.Println("life: the first 25 scripts were all infeasible, giving up")
+				break
+			}
 		}
 		if err != nil {
 			break
